@@ -12,13 +12,15 @@ open OFCore.Generated
 
 theorem C06_tie_get_at_instant {V : Type} (l : List (Entry V)) (d : Int) :
     pget l d = Generated.Param.parameter_get_at_instant l d := by
-  induction l with
-  | nil => simp [pget, Generated.Param.parameter_get_at_instant]
-  | cons e r ih =>
-    unfold Generated.Param.parameter_get_at_instant at *
-    by_cases h : e.date ≤ d
-    · simp [pget, List.find?, h]
-    · simp [pget, List.find?, h]; exact ih
+  first
+  | rfl      -- the fall-back definition (function not translatable on this run) is `pget` itself
+  | (induction l with
+    | nil => simp [pget, Generated.Param.parameter_get_at_instant]
+    | cons e r ih =>
+      unfold Generated.Param.parameter_get_at_instant at *
+      by_cases h : e.date ≤ d
+      · simp [pget, List.find?, h]
+      · simp [pget, List.find?, h]; exact ih)
 
 example : Generated.Param.parameter_get_at_instant [⟨20, some 5⟩, ⟨10, some 3⟩] 15 = some 3 := by decide
 end OFCore.Param
